@@ -26,7 +26,7 @@ ANCHORS = [
     "quara/utils/matrix_util.py:is_positive_semidefinite", "quara/utils/matrix_util.py:is_hermitian",
 ]
 REQUIRED_REACH = ANCHORS
-MIN_EVALS = {"quick": 2000, "thorough": 20000}
+MIN_EVALS = {"quick": 50000, "thorough": 500000}
 WATCHDOG = {"quick": 900, "thorough": 3600}
 
 TYPES = ["State", "Povm", "Gate", "MProcess"]
@@ -40,7 +40,7 @@ KINDS_BY_TYPE = {
 
 def shards(tier, seed):
     out = []
-    n = {"quick": 14, "thorough": 160}[tier]
+    n = {"quick": 48, "thorough": 480}[tier]
     for t in TYPES:
         for shape in ["S1", "S3", "S2", "S23"]:
             for kind in KINDS_BY_TYPE[t]:
